@@ -58,12 +58,12 @@ func gen(r *rand.Rand, thorough bool, i int) []string {
 		newAlloc()
 	}
 	for c := 0; c < nClients; c++ {
-		switch r.Intn(5) {
+		switch r.Intn(10) {
 		case 0: // no pool
 		case 1:
 			ops = append(ops, fmt.Sprintf("lock %d %d %d", c, c, pick(r, []uint64{1, 6103, 50000, 0})))
 		default:
-			ops = append(ops, fmt.Sprintf("lock %d %d %d", c, c, pick(r, []uint64{5000000000, 1000000000000, 70000000000000})))
+			ops = append(ops, fmt.Sprintf("lock %d %d %d", c, c, pick(r, []uint64{5000000000, 1000000000000, 70000000000000, 5000000000000000})))
 		}
 	}
 	last := map[string]int64{}
@@ -87,7 +87,11 @@ func gen(r *rand.Rand, thorough bool, i int) []string {
 			}
 			key := fmt.Sprintf("%d|%d|%d", b, c, aTok)
 			var ctr int64
-			switch y := r.Intn(100); {
+			y := r.Intn(100)
+			if last[key] == 0 && y >= 55 && y < 82 && r.Intn(4) != 0 {
+				y = 0 // nothing to replay yet
+			}
+			switch {
 			case y < 55:
 				ctr = last[key] + pick(r, []int64{1, 1, 2, 3, 5, 16, 16384, 16385, 100000, 1 << 20})
 			case y < 70:
@@ -116,6 +120,9 @@ func gen(r *rand.Rand, thorough bool, i int) []string {
 				signer = pick(r, []string{"c0", "c1", "c2", "c3", "b0", "b1"})
 			case 1:
 				pk = pick(r, []string{"c0", "c1", "b0", "bad"})
+			case 2: // another key signs and presents itself as the client's key (the charge would hit client c's pool)
+				signer = pick(r, []string{"c0", "c1", "c2", "b0"})
+				pk = signer
 			}
 			tk, tv := "none", "0"
 			if r.Intn(8) == 0 {
@@ -197,6 +204,7 @@ func fixed() [][]string {
 			"rm c2 0 c0 0 0 0 7 1700000001 c0 ctr 8", "rm c2 0 c0 0 0 0 7 1700000001 c0 ts 1700000002", "rm c2 0 c0 0 0 0 7 1700000001 c0 alloc 1",
 			"rm c2 0 c0 0 0 0 7 1700000001 c0 blobber 1", "rm c2 0 c0 0 0 0 7 1700000001 c0 owner 1", "rm c2 0 c0 0 0 0 7 1700000001 c0 client 1",
 			"rm c2 0 c0 0 0 0 7 1700000001 c0 sigbad 0", "rm c2 0 c0 0 0 0 7 1700000001 c0 sigother 0", "rm c2 0 c0 0 0 0 7 1700000001 c0 nosig 0",
+			"rm c2 0 c1 0 0 0 7 1700000001 c1 none 0", "rm c2 0 b0 0 0 0 7 1700000001 b0 none 0",
 			"rm c2 0 c0 0 0 0 7 1700000001 c0 ctr 7", "rm c2 0 c0 0 0 0 7 1700000001 c0 none 0"),
 		// window, fields, unknown allocation, foreign blobber, pools
 		with("fx6", "rm c2 0 c0 0 0 0 3 1699999999 c0 none 0", "rm c2 0 c0 0 0 0 3 1702592001 c0 none 0", "rm c2 0 c0 0 0 0 3 1702592000 c0 none 0",
